@@ -281,7 +281,7 @@ func c17MSClass(ms c17MS) string {
 }
 
 func c17Run(c *fw.Ctx) {
-	senders := []string{"s@o.test", "s@badorigin.test"}
+	senders := []string{"s@o.test", "s@badorigin.test", ""} // "" = the null reverse-path MAIL FROM:<>
 	rcptSets := [][]string{{"a@keep.test"}, {"a@rej.test"}, {"a@drop.test"}, {"a@keep.test", "b@drop.test"}, {"a@rej.test", "b@keep.test"}}
 	n := 0
 	run := func(cas c17Case) {
